@@ -5,9 +5,18 @@ alphabet of shell/Python metacharacters, plus the deletion-closure of a few long
 writing FORMS (plain word, '..', "..", r'..', f'..', triple quoted, @(expr), @([..]), @(gen),
 glue p@(v)s, subprocess macro `!`) x POSITIONS (first/middle/last argument, before a redirect,
 inside $( )) x $EXPAND_ENV_VARS, executed through the full path Execer.exec -> parser -> run_subproc
-on three delivery paths: a threaded callable alias, an unthreaded callable alias and a real child
-process.  The scratch cwd/$HOME/$a/$V are arranged so that any globbing, expansion or re-splitting
-that is not documented WOULD change the delivered argv.
+on six delivery paths: a threaded callable alias, an unthreaded callable alias and a real child
+process as the command word itself, and the same recorders reached through a list alias / a string
+alias (['recu','FIX'], 'recu FIX', ['recc','FIX']): the user's arguments must follow the alias's
+own argument exactly as on the direct paths.  The scratch cwd/$HOME/$a/$V are arranged so that any
+globbing, expansion or re-splitting that is not documented WOULD change the delivered argv.
+
+Part B enumerates the VALUES OF A VARIABLE instead: $Q is set to every sequence of up to n tokens
+of {a, blank, $W (defined), $, ~, *, $Q (self reference), ${'W'}} and then used where substitution
+is documented (`$Q`, `${'Q'}`, `@($Q)`, "$Q", "x $Q y", "$Q $W", '$Q', f'$Q', `$Q/s`, `p/$Q`):
+the value must arrive verbatim - substituted exactly once, never expanded again, globbed or
+re-split - and a substitution that does not return within the per-case alarm is a violation.  The
+same texts are also written in the two verbatim forms r"..." and @("...").
 
 Oracle (from the statement + docs/tutorial.rst, docs/strings.rst, docs/macros.rst, env docs):
   * quoted non-raw literal  -> one argument = documented expansion of its Python value;
@@ -15,6 +24,7 @@ Oracle (from the statement + docs/tutorial.rst, docs/strings.rst, docs/macros.rs
   * @(expr)                 -> one argument per string / element, verbatim;
   * p@(v)s                  -> one argument p+v+s per element (documented outer product), verbatim;
   * cmd! text               -> one argument = text without leading/trailing blanks;
+  * $Q in the documented places -> the value of Q, once, as it is;
   * all delivery paths observe the same argv.
 
 Does NOT require (deliberately unchecked, because the docs are silent or allow it):
@@ -23,7 +33,8 @@ Does NOT require (deliberately unchecked, because the docs are silent or allow i
   * whether `${NAME}` inside a string is substituted, where a `$NAME` ends when a non-ASCII
     character follows, whether `~` after `=` / `:` is expanded, whether substitution of an
     f-string happens before or after field formatting: every documented-or-plausible reading is
-    accepted (the reference returns a SET of allowed values);
+    accepted (the reference returns a SET of allowed values); likewise whether a `~` that LEADS
+    the result of a `$Q` substitution is expanded afterwards;
   * macro text the lexical rules legitimately take away from the line: an empty macro (`cmd!`),
     text ending in a backslash (backslash-newline continues the line), text with unbalanced
     ( ) [ ] { } or an open triple quote (the grammar ends a macro at a closer / continues the
@@ -145,11 +156,13 @@ def _order_key(v):
 
 
 def enumerate_env_values(maxtok):
-    """Every non-empty sequence of <= maxtok VTOKENS (closed under deletion), shortest first."""
+    """Every non-empty sequence of <= maxtok VTOKENS (closed under deletion)."""
     vals = []
     for n in range(1, maxtok + 1):
         vals.extend(itertools.product(VTOKENS, repeat=n))
-    return vals
+    # self-referencing values last and next to each other: consecutive items go to different
+    # workers, so an implementation that loops on them costs every worker a little, not two a lot
+    return [v for v in vals if "$Q" not in v] + [v for v in vals if "$Q" in v]
 
 
 def enumerate_values(maxlen):
